@@ -41,6 +41,9 @@ ERR_ALLOWED = {
 }
 
 
+WRITE_SIDE = re.compile(r"^src/(backup|index/write)\.rs$")
+
+
 def run(ck, w):
     lib = w.lib
     g = w.graph
@@ -77,15 +80,36 @@ def run(ck, w):
                 info.append(s)
                 continue
         real.append(s)
+    # second solve: the newtypes that make up a decoded entry (Apath, BlockHash, UnixMode, Owner ...) carry
+    # taint too. They are shared with the source walk, so on the write side (backup.rs, index/write.rs) this is
+    # too coarse; a sink found only by this solve is reported where it becomes real OUTSIDE the write side.
+    T2 = taint.Taint(w, DOC_TYPES, decoded_enums={"kind::Kind"}, carry_field_types=True)
+    T2.solve()
+    old_keys = {(s_.body.root, s_.kind, s_.name) for s_ in T.real.values()}
+    n2 = 0
+    for sid, s_ in sorted(T2.real.items(), key=lambda x: (x[1].body.file, x[1].line or 0)):
+        if s_.body.name not in scope or SKIP_FILES.search(s_.body.file) or rules.is_derive_body(s_.body):
+            continue
+        if s_.kind not in ("panic", "unwrap") or (s_.body.root, s_.kind, s_.name) in old_keys:
+            continue
+        sites_ = [n for n in T2.real_sites.get(sid, ()) if n in lib.bodies and n in scope
+                  and not WRITE_SIDE.search(lib.bodies[n].file) and not SKIP_FILES.search(lib.bodies[n].file)]
+        if not sites_:
+            continue
+        n2 += 1
+        s_.via = "%s -> ... %s" % (sorted(sites_)[0], (s_.via or "")[-100:])
+        s_.real_root = lib.bodies[sorted(sites_)[0]].root
+        real.append(s_)
+    ck.stats["taint"]["newtype_solve_extra_sinks"] = n2
     ck.floor("C10.1.src", "struct fields known to carry decoded data (sources incl. propagated)", len(T.heap), 10)
     if real:
         seen = set()
         for s in real:
-            key = (s.body.root, s.kind, s.name)
+            key = (getattr(s, "real_root", None) or s.body.root, s.kind, s.name)
             if key in seen:
                 continue
             seen.add(key)
-            ck.fail(o, s.body.root, "%s: %s" % (s.kind, s.name), "%s%s" % (s.msg, (" [reached via %s]" % s.via[-160:]) if s.via else ""), s.site())
+            ck.fail(o, key[0], "%s: %s" % (s.kind, s.name), "%s%s" % (s.msg, (" [reached via %s]" % s.via[-160:]) if s.via else ""), s.site())
     else:
         ck.ok(o, "%d informational debug-only overflow site(s)" % len(info), instances=len(T.heap))
     ck.note("debug-build-only arithmetic on decoded lengths that bounds nothing (informational): %s" % sorted({"%s@%s" % (s.body.root, s.line) for s in info})[:20])
@@ -104,6 +128,7 @@ def run(ck, w):
 
     _version_default_is_unsupported(ck, w)
     _read_hunk_returns_decoded(ck, w)
+    common.hunk_listing_complete(ck, w, "C10.3h")
 
     # ---- 3. loudness on restore / list ---------------------------------------------------------------------
     o = ck.ob("C10.3", "under restore and iter_entries every read/decoding failure is reported or propagated")
